@@ -140,8 +140,26 @@ try:
              relative_path=getattr(got, "relative_path", None))
 
     # ---- (3) order of multi-output values
+    import threading
+    others_done = threading.Event()
+
+    def gate(provider, mode):
+        """element 0 finishes being persisted only after a later element has (or after 0.5 s): completion order != element order, every time"""
+        real_write = provider.write
+
+        def write(dst):
+            if mode == "wait":
+                others_done.wait(0.5)
+            r = real_write(dst)
+            if mode == "set":
+                others_done.set()
+            return r
+        provider.write = write
     for pool in (None, ThreadPoolExecutor(max_workers=4)):
+        others_done.clear()
         value = [DatasourceProvider(["elem %d" % i] * (20000 if i == 0 else 1), "multi/e%d" % i, ds=many) for i in range(4)]
+        gate(value[0], "wait")
+        gate(value[3], "set")
         got, tmp = roundtrip(many, value, pool=pool)
         shutil.rmtree(tmp, ignore_errors=True)
         count["order"] += 1
